@@ -271,7 +271,7 @@ func init() {
 		harnessPkg + ".LetTimePass": func(in *Interp, fn *ssa.Function, a []Value, _ ssa.CallInstruction) Value {
 			// every armed timer fires, in deadline order, until none is pending
 			for n := 0; n < 64; n++ {
-				if !in.fireEarliest() {
+				if !in.fireEarliest(false) {
 					break
 				}
 			}
@@ -599,6 +599,22 @@ func init() {
 					min, max := rect[0].(Struct), rect[1].(Struct)
 					dx := in.binop(token.SUB, types.Typ[types.Int], max[0], min[0])
 					st[i] = in.binop(token.MUL, types.Typ[types.Int], dx, uint64(4))
+				case "Pix":
+					// small images of concrete size get their (zeroed) pixels, so that code
+					// reading them (quantiser, encoders) runs; larger or symbolic ones do not
+					min, max := rect[0].(Struct), rect[1].(Struct)
+					x0, ok0 := min[0].(uint64)
+					y0, ok1 := min[1].(uint64)
+					x1, ok2 := max[0].(uint64)
+					y1, ok3 := max[1].(uint64)
+					if ok0 && ok1 && ok2 && ok3 && int64(x1) > int64(x0) && int64(y1) > int64(y0) && (x1-x0)*(y1-y0) <= 4096 {
+						n := int((x1 - x0) * (y1 - y0) * 4)
+						pix := make(Slice, n)
+						for k := range pix {
+							pix[k] = uint64(0)
+						}
+						st[i] = pix
+					}
 				}
 			}
 			*p = st
